@@ -109,7 +109,8 @@ def run_rt_property(mod, tier, seed, replay=None):
         dist["corpus_cases"] = len(corp)
 
     impl, model = run_pair(mod, harness, runner, lines)
-    stats = {"evaluations": len(lines), "mismatches": 0, "monitor_failures": 0, "dist": dist,
+    nrows = sum(l.count(";") + 1 for l in lines) if getattr(mod, "COUNT_ROWS", False) else len(lines)
+    stats = {"evaluations": nrows, "case_lines": len(lines), "mismatches": 0, "monitor_failures": 0, "dist": dist,
              "harness_build_s": round(hdt, 1)}
     failing, mismatching = [], []
     distinct = set()
@@ -121,7 +122,8 @@ def run_rt_property(mod, tier, seed, replay=None):
             failing.append((i, fails))
         if mism:
             mismatching.append(i)
-    stats["distinct_nontrivial"] = len(distinct)
+    stats["distinct_nontrivial"] = (len({r.strip() for l in distinct for r in l.split("|", 1)[1].split(";")})
+                                    if getattr(mod, "COUNT_ROWS", False) else len(distinct))
     stats["monitor_failures"] = len(failing)
     stats["mismatches"] = len(mismatching)
     stats["traces_validated_against_impl"] = len(lines) - len(mismatching)
